@@ -100,6 +100,8 @@ def run(run, args):
             if key == k:
                 print("KNOWN-FINDING: property=C12 %s %s" % (k, text))
     broken = standard_proof_obligations(run, "C12", THEOREMS)
+    broken += source_corollaries(run, "C12s", ["C12s_same_construction", "C12s_helper_table", "C12s_table_consistent", "C12s_matches_nist", "C12s_table_consistent_id",
+                                               "C12s_matches_nist_id", "C12s_order_independent"], ("element",))
 
     # concrete failing inputs first
     if fails:
